@@ -5,11 +5,30 @@
 //!   stats.txt histogram of what was exercised, spec-oracle failures of the implementation
 #![allow(dead_code)]
 mod engines;
+mod msgtext;
 mod rng;
 mod sha1;
 mod util;
 
 use rng::Rng;
+use std::alloc::{GlobalAlloc, Layout, System};
+use std::sync::atomic::{AtomicUsize, Ordering};
+
+/// Counting allocator: remembers the largest single allocation request (C14's "memory out of
+/// proportion to the input" is measured with it in the supervised decoder child).
+struct Counting;
+static MAX_REQ: AtomicUsize = AtomicUsize::new(0);
+unsafe impl GlobalAlloc for Counting {
+    unsafe fn alloc(&self, l: Layout) -> *mut u8 { MAX_REQ.fetch_max(l.size(), Ordering::Relaxed); System.alloc(l) }
+    unsafe fn alloc_zeroed(&self, l: Layout) -> *mut u8 { MAX_REQ.fetch_max(l.size(), Ordering::Relaxed); System.alloc_zeroed(l) }
+    unsafe fn dealloc(&self, p: *mut u8, l: Layout) { System.dealloc(p, l) }
+    unsafe fn realloc(&self, p: *mut u8, l: Layout, n: usize) -> *mut u8 { MAX_REQ.fetch_max(n, Ordering::Relaxed); System.realloc(p, l, n) }
+}
+#[global_allocator]
+static GLOBAL: Counting = Counting;
+pub fn alloc_reset() { MAX_REQ.store(0, Ordering::Relaxed) }
+pub fn alloc_max() -> usize { MAX_REQ.load(Ordering::Relaxed) }
+
 use std::io::Write;
 use std::panic::{catch_unwind, AssertUnwindSafe};
 use util::Stats;
@@ -58,6 +77,10 @@ fn main() {
     if args.len() < 2 {
         eprintln!("usage: harness <engine> [--seed N] [--cases N] [--thorough] [--out DIR] [--corpus DIR] [--replay FILE]");
         std::process::exit(2);
+    }
+    if args[1] == "codec-child" {
+        engines::codec::child_main();
+        return;
     }
     let engine_name = args[1].clone();
     let mut seed: u64 = 1;
